@@ -149,6 +149,11 @@ def valid_utf8(b):
         return False
 
 
+def clone_class(cls):
+    """a fresh copy of a class definition (native counterpart of the interpreter's clone_class)"""
+    return type(cls.__name__, cls.__bases__, dict(cls.__dict__))
+
+
 # -- registry --------------------------------------------------------------------------------------------------------
 
 CONTRACTS: list = []
